@@ -1050,6 +1050,9 @@ def case_line(case):
     items = [files, case['main'], 1 if case.get('strict', True) else 0, _bytes(case.get('flat') or '')]
     items.append(case.get('ops') or [])    # edits through the API before the model is written (harness kind INCL)
     items.append([_bytes(d) for d in decoys_of(case)])
+    # the main file once more by its bare name from its own directory (only where everything resolves: the fall-back to the working
+    # directory would find files next to the main file that are missing next to an including file in a sub-directory)
+    items.append(1 if (case.get('expect', 'equal') == 'equal' and case.get('kind') in ('split', 'special')) else 0)
     return sx.enc(items)
 
 
@@ -1215,6 +1218,14 @@ def problems(case, ans):
             out.append(('load-err', '(no flattened text to compare) %s/%s: %s' % (_t(ans[1]), _t(ans[3]), _short(ans[2]))))
         return out
     dump, diags, text1, rel, mrg, flt = ans[1:7]
+    if len(ans) > 7 and ans[7]:
+        bs = _t(ans[7][0])
+        if bs == 'PANIC':
+            out.append(('panic', 'load of the main file by its bare name: panic'))
+        elif bs == 'ERR':
+            out.append(('bare-name', 'the main file given by its bare name (working directory = its directory) does not load: ' + _short(ans[7][1], 200)))
+        elif bs == 'DIFF':
+            out.append(('bare-name', 'the main file given by its bare name (working directory = its directory) loads to a different model'))
     a2ml_unparsed = [_t(d) for d in diags if 'A2ML parser reports' in _t(d) or 'A2mlError' in _t(d)]
     # transparency
     if flt:
